@@ -19,6 +19,8 @@ pub enum Op {
     Empty,
     /// add this many pieces of 1..3 bytes in a row (bulk; stops silently when the buffer is full)
     AddMany(u16),
+    /// add one piece of this many bytes (big pieces: flushes of more than 1 MiB)
+    AddSized(u32),
 }
 
 #[derive(Clone, Debug, Serialize, Deserialize)]
@@ -37,7 +39,7 @@ fn piece(counter: usize, len: usize) -> Vec<u8> {
     (0..len).map(|i| (counter * 31 + i * 7 + 1) as u8).collect()
 }
 
-const CLASSES: &[&str] = &["fill-after-remove", "fill-after-eof", "remove-too-many", "add-when-full", "bulk-add", "empty-after-2-adds", "writer", "reader", "size-0", "size-65535", "write-limit-hit"];
+const CLASSES: &[&str] = &["big-piece", "fill-after-remove", "fill-after-eof", "remove-too-many", "add-when-full", "bulk-add", "empty-after-2-adds", "writer", "reader", "size-0", "size-65535", "write-limit-hit"];
 
 pub fn judge(dir: &Path, c: &Case, obs: &mut Obs) -> Judge {
     match c.fsize_limit {
@@ -163,6 +165,26 @@ fn judge_inner(path: &Path, file: File, bytes: &[u8], c: &Case, obs: &mut Obs) -
                     }
                     model.push_back(p);
                     adds_since_empty += 1;
+                }
+            }
+            Op::AddSized(n) => {
+                counter += 1;
+                let p: Vec<u8> = content(counter as u64, *n as usize);
+                let r = match no_panic(|| w.add(p.clone())) {
+                    Ok(r) => r,
+                    Err(m) => viol!("window-panic", "add panicked at step {}: {}", step, m),
+                };
+                if model.len() >= size {
+                    if r.is_ok() {
+                        viol!("add-contract", "add succeeded at step {} on a full buffer (size {})", step, size);
+                    }
+                } else {
+                    if r.is_err() {
+                        viol!("add-contract", "add failed at step {} with {} of {} pieces buffered", step, model.len(), size);
+                    }
+                    model.push_back(p);
+                    adds_since_empty += 1;
+                    obs.class("big-piece");
                 }
             }
             Op::Empty => {
@@ -333,6 +355,30 @@ fn exhaustive_cases(l: usize) -> Vec<Case> {
     out
 }
 
+/// windows whose content exceeds 1 MiB: big chunks on the reader side, big pieces on the writer side
+pub fn big_strategy() -> BoxedStrategy<Case> {
+    (any::<bool>(), 18u16..40, prop::sample::select(vec![65464usize, 60001, 40000, 32768]), 0usize..3, proptest::collection::vec(0u16..8, 0..6))
+        .prop_map(|(writer, size, chunk, extra, rem)| {
+            let mut ops = vec![];
+            if writer {
+                for _ in 0..size {
+                    ops.push(Op::AddSized(chunk as u32));
+                }
+                ops.push(Op::Empty);
+                ops.push(Op::AddSized(chunk as u32 - 1));
+                ops.push(Op::Empty);
+            } else {
+                ops.push(Op::Fill);
+                for r in rem {
+                    ops.push(Op::Remove(r.min(size)));
+                    ops.push(Op::Fill);
+                }
+            }
+            Case { writer, size, chunk, file_len: (size as usize + 3 + extra) * chunk + 17, ops, fsize_limit: None }
+        })
+        .boxed()
+}
+
 pub fn run(ctx: &Ctx) {
     ctx.set_rule("operation sequences over tftpd::Window in the two ways its callers use it (reader: file opened read-only, fill/remove/add; writer: fresh write-only file, add/remove/empty), a quarter of the random writer cases run under a small RLIMIT_FSIZE (a write that cannot complete must be reported by empty, never silently shortened); all compared after every step with a VecDeque reference model plus a cursor into the file bytes (elements, return values, len/is_empty/is_full, file contents). Exhaustive: all sequences up to length L over 4 ops for size 0..3, chunk 1..3 and every file length up to (size+2)*chunk+1; random: sequences up to 40 ops, size 0..6 and 65535, chunk 1..9. Non-trivial = a fill after a remove, or an empty after >=2 adds; distinct = distinct (parameters, sequence).");
     ctx.assume("fill is only exercised on windows over readable files and empty only on writable ones (the callers' use)");
@@ -342,6 +388,7 @@ pub fn run(ctx: &Ctx) {
     ctx.extra("exhaustive_sequence_length", serde_json::json!(l));
     enumerate(ctx, "exh-sequences", &cases, true, |c, o| dirs.with(|d| judge(d, c, o)));
     explore(ctx, "random", ctx.tier.pick(400_000, 4_000_000), strategy, |c: &Case, o| dirs.with(|d| judge(d, c, o)));
+    explore_n(ctx, "big-pieces", ctx.tier.pick(160, 4_000), shards(), 16, big_strategy, |c: &Case, o| dirs.with(|d| judge(d, c, o)));
 }
 
 pub fn replay(ctx: &Ctx, part: &str, case: &Value) -> bool {
